@@ -5,10 +5,10 @@ ID=$1; shift; W=/tmp/seed/$ID; D=/tmp/seed/$ID-work
 cd $W || exit 2
 git checkout -q -- . ; git apply $D/patch.diff || { echo "APPLY-FAILED"; exit 2; }
 timeout 1500 cmake --build _build -j8 2>&1 | tail -1
-cc -g -O1 -I include -I _build/include -I . "$@" $D/demo.c _build/lib/libevent_core.a _build/lib/libevent_extra.a _build/lib/libevent_pthreads.a -lpthread -o $D/demo || { echo "DEMO-BUILD-FAILED"; }
+cc -g -O1 -I include -I _build/include -I . "$@" $D/demo.c _build/lib/libevent_extra.a _build/lib/libevent_core.a _build/lib/libevent_pthreads.a -lpthread -o $D/demo || { echo "DEMO-BUILD-FAILED"; }
 timeout 120 $D/demo > $D/demo-with.out 2>&1; echo "demo rc WITH patch = $? ($(tail -1 $D/demo-with.out))"
 timeout 1800 ctest --test-dir _build -j8 --timeout 900 -E '^regress' 2>&1 | grep "tests passed\|tests failed"
 git checkout -q -- .
 timeout 1500 cmake --build _build -j8 2>&1 | tail -1
-cc -g -O1 -I include -I _build/include -I . "$@" $D/demo.c _build/lib/libevent_core.a _build/lib/libevent_extra.a _build/lib/libevent_pthreads.a -lpthread -o $D/demo
+cc -g -O1 -I include -I _build/include -I . "$@" $D/demo.c _build/lib/libevent_extra.a _build/lib/libevent_core.a _build/lib/libevent_pthreads.a -lpthread -o $D/demo
 timeout 120 $D/demo > $D/demo-without.out 2>&1; echo "demo rc WITHOUT patch = $?"
